@@ -1,7 +1,7 @@
 (** C01, part 4: meaning of every conjunct of the boolean checker [C01.okb] that the
     harness applies to the implementation's outputs. *)
 From Verif Require Import Base.Prelude Model.Merge Model.C01 Proofs.MergeDen Proofs.C01
-  Proofs.C01Simp.
+  Proofs.C01Simp Proofs.C01Deep.
 From Coq Require Import Lia Arith.
 Local Open Scope Z_scope.
 
@@ -62,6 +62,26 @@ Section Checker.
       + unfold den_nested, Merge.den.
         rewrite (den_s_notin eqb eqb_spec) by (intros C; apply I, in_or_app; auto).
         rewrite den_nested_s_notin by (intros C; apply I, in_or_app; auto). reflexivity.
+    - intros H v _. apply Z.eqb_eq, H.
+  Qed.
+
+  Lemma wdeep3_notin (n3 : list (list (list T))) v :
+    ~ In v (concat (concat n3)) -> wdeep eqb 3 v n3 = 0.
+  Proof.
+    intros H. cbn [wdeep]. apply sden_zero. intros mm Hmm. apply sden_zero. intros m Hm.
+    apply sden_zero. intros x Hx. destruct (eqb x v) eqn:E; [|reflexivity].
+    apply eqb_spec in E. subst x. exfalso. apply H.
+    apply in_concat. exists m. split; [|exact Hx]. apply in_concat. exists mm. auto.
+  Qed.
+
+  Lemma flat3_den_okb_spec flat n3 :
+    flat3_den_okb eqb flat n3 = true <-> forall v, den eqb flat v = wdeep eqb 3 v n3.
+  Proof.
+    unfold flat3_den_okb. rewrite forallb_forall. split.
+    - intros H v. destruct (in_dec (eq_dec_of_eqb eqb eqb_spec) v (flat ++ concat (concat n3))) as [I|I].
+      + now apply Z.eqb_eq, H.
+      + unfold Merge.den. rewrite (den_s_notin eqb eqb_spec) by (intros C; apply I, in_or_app; auto).
+        rewrite wdeep3_notin by (intros C; apply I, in_or_app; auto). reflexivity.
     - intros H v _. apply Z.eqb_eq, H.
   Qed.
 
@@ -192,6 +212,7 @@ Record C01_ok (c : case) : Prop := {
   ok_idem : c_resimplified c = c_simplified c;
   ok_mapping : mapping_ok (c_m c) (c_simplified c) (map N.to_nat (c_mapping c));
   ok_flat : forall v, den N.eqb (c_flat c) v = den_nested N.eqb (c_nested c) v;
+  ok_flat3 : forall v, den N.eqb (c_flat3 c) v = wdeep N.eqb 3 v (c_nested3 c);
   ok_lands : lands (c_m c) (map N.to_nat (c_mapping c)) (c_edit c) (c_updated c);
   ok_changes : forall x, count N.eqb x (changes (c_m c) (c_updated c))
                          = count N.eqb x (changes (c_simplified c) (c_edit c));
@@ -202,15 +223,16 @@ Proof.
   unfold okb. rewrite !Bool.andb_true_iff.
   rewrite (den_eqb_spec N.eqb N_eqb_spec'), (disjointb_spec N.eqb N_eqb_spec'),
     (mapping_okb_spec N.eqb N_eqb_spec'), (flat_den_okb_spec N.eqb N_eqb_spec'),
+    (flat3_den_okb_spec N.eqb N_eqb_spec'),
     multiset_eqb_spec.
   unfold leqb. rewrite (list_eqb_spec N.eqb N_eqb_spec').
   split.
-  - intros [[[[[[[A B] C] D] E] F] G] H]. destruct E as (E1 & E2 & E3).
+  - intros [[[[[[[[A B] C] D] E] F] F3] G] H]. destruct E as (E1 & E2 & E3).
     apply (landsb_spec N.eqb N_eqb_spec') in G; auto.
     + constructor; auto. split; [exact E1|split; [exact E2|exact E3]].
     + intros i Hi. apply In_nth_error in Hi as [j Hj]. now destruct (E3 j i Hj).
-  - intros [A B C D E F G H]. destruct E as (E1 & E2 & E3).
-    split; [split; [split; [split; [split; [split; [split|]|]|]|]|]|]; auto.
+  - intros [A B C D E F F3 G H]. destruct E as (E1 & E2 & E3).
+    split; [split; [split; [split; [split; [split; [split; [split|]|]|]|]|]|]|]; auto.
     + split; [exact E1|split; [exact E2|exact E3]].
     + apply (landsb_spec N.eqb N_eqb_spec'); auto.
       intros i Hi. apply In_nth_error in Hi as [j Hj]. now destruct (E3 j i Hj).
